@@ -167,6 +167,12 @@ func (g *Gen) seedGenesis(gs *GenesisSpec) {
 			} else {
 				gs.Did = append(gs.Did, DidGenesisEntry{Did: did, Seq: uint64(i % 4), Doc: g.plainDoc(did, 4+i%8)})
 			}
+			// an identifier may be a proper prefix of another one (32 to 44 characters are legal): every other bulk identifier
+			// gets its own first 43 characters as a neighbour (it sorts right in front of it)
+			if short := did[:len(did)-1]; i%2 == 0 && len(did) == len("did:panacea:")+44 && !have[short] {
+				have[short] = true
+				gs.Did = append(gs.Did, DidGenesisEntry{Did: short, Seq: uint64(i % 3), Doc: g.plainDoc(short, 4+i%8)})
+			}
 		}
 	}
 	// PNFT: denoms with tokens held by their creators
